@@ -185,6 +185,11 @@ def rule_R3(ck, rule="R3"):
         # the two references denote different elements (of different vectors)
         base.add(c_not(c_cmp("eq", simplify(fv[0][0], base), simplify(fw[0][0], base))))
         base.saturate()
+        from .rules_layout import _reduced_masks
+        opaque = [x for (a_, l_, b_) in fv + fw for x in (_reduced_masks(a_) + _reduced_masks(b_))]
+        if opaque:
+            rec.broken("%s R3 %s: field addresses contain rounding masks the domain cannot interpret (%s)" % (tu.cfg, fn, show(atom(opaque[0]))[:120]))
+            continue
         W = writes(tu, fn)
         rec.count("write_effects", len(W))
         from .rules_emplace import root_arg
